@@ -1,5 +1,7 @@
 """C02 - tampered encrypted traffic is never accepted as different data.
 
+(+ dimension 'key epochs': two-epoch streams on one sender/receiver pair, edits that cross the key switch, see META)
+
 enum faults: a 3-message encrypted stream is recorded from a real sender Transport per suite, then
 replayed to a freshly keyed real receiver after every single-point edit (every byte position x
 {xor 01, xor 80, xor ff, delete, insert 00, truncate}), every packet swap / drop / duplication, and
@@ -31,7 +33,17 @@ META = {
             "until the bytes run out, and everything delivered before and after the rejection(s) must still be an "
             "unmodified prefix of the sent sequence; thorough adds all pairs of bit flips inside the first packet and (length-"
             "field byte, any byte) pairs. Quick: all 144 suites client->server plus 14 class representatives "
-            "server->client; thorough: all 144 suites, both directions, plus 81 streams that cross a re-key between class representatives. The receiver must deliver only an unmodified prefix of the sent "
+            "server->client; thorough: all 144 suites, both directions, plus 81 streams that cross a re-key between class representatives. "
+            "New dimension 'key epochs' - the edit menu applied ACROSS a key switch on the same sender / receiver objects: "
+            "streams NEWKEYS, a0 (5 bytes), a1 (300), NEWKEYS (encrypted; new K and H), b0 (40), b1 (17) with the sequence "
+            "numbers running on or restarting at every NEWKEYS (strict kex); every swap / drop / replay position over the 5 "
+            "encrypted packets (first-epoch packets replayed into the second epoch and vice versa), every packet overwritten "
+            "by a copy of every other one, the whole first-epoch traffic replayed in place of / in front of / after the second "
+            "epoch's, and every byte position from the encrypted NEWKEYS on x {xor 0x01, xor 0x80, xor 0xff, delete, insert, "
+            "truncate}, both stream ends, reader keeps reading; quick: each of the 14 class representatives re-keyed to "
+            "itself (both directions) and to the representative 3 further on (client->server) = 84 streams, thorough: all "
+            "144 suites re-keyed to themselves (both directions) and every ordered pair of representatives = 940 streams. "
+            "The receiver must deliver only an unmodified prefix of the sent "
             "messages - no message decoded from bytes at or after the first changed byte - then raise or wait.",
     "note": "bounded adversary: one edit (two bit flips in thorough) per stream; cryptographic strength (forgery) is not "
             "something enumeration decides; 'waits' = the byte queue ran dry inside read_message",
@@ -99,15 +111,37 @@ def make_script(suite, suite2=None, lengths=LENGTHS):
     return [first, m[0], ("switch",) + tuple(suite2) + (False,)] + m[1:]
 
 
-def record(direction, suite, suite2=None, lengths=LENGTHS):
-    script = make_script(suite, suite2, lengths)
+# dimension "key epochs": ONE sender/receiver pair (same Transport and Packetizer objects) goes through two key
+# switches - NEWKEYS, a0, a1, NEWKEYS (encrypted; new K and H, session id kept), b0, b1 - with the sequence numbers
+# running on or restarting at every NEWKEYS (strict kex).  a1 is long enough that a packet accepted under the wrong
+# cipher key still leaves a payload whatever its padding-length byte decrypts to.
+EPOCH_LENGTHS = ((5, 300), (40, 17))
+EPOCH_PTYPES = ((94, 2), (98, 2))
+STRICT = (False, True)
+EPOCH_SHIFT = 3            # quick: epoch 2 of the 'suite changes' streams uses the class representative 3 further on
+
+
+def make_epoch_script(suite, suite2, strict):
+    """NEWKEYS(suite), a0, a1, NEWKEYS(suite2), b0, b1; `strict`: sequence numbers restart at every NEWKEYS."""
+    out = []
+    for e, (su, lens) in enumerate(zip((suite, suite2), EPOCH_LENGTHS)):
+        out.append(("switch",) + tuple(su) + (bool(strict),))
+        out += [("msg", n, False, EPOCH_PTYPES[e][i], 40 + 10 * e + i) for i, n in enumerate(lens)]
+    return out
+
+
+def record_script(direction, script):
     _stream, chunks, sent = P.transmit(direction, script)
     return script, chunks[0], chunks[1:], sent
 
 
+def record(direction, suite, suite2=None, lengths=LENGTHS):
+    return record_script(direction, make_script(suite, suite2, lengths))
+
+
 def regions_of(direction, script, packets):
     """Byte regions of the recorded encrypted stream, from the independent decoder: list of (start, end, name)."""
-    dec, seq, nsw = None, 1, 0
+    dec, seq, nsw = None, 1, 0          # seq 0 was the clear NEWKEYS
     out, off = [], 0
     for i, (it, pk) in enumerate(zip(script, [None] + list(packets))):
         if pk is not None:
@@ -121,8 +155,8 @@ def regions_of(direction, script, packets):
             off += len(pk)
             seq = dec.seq
         if it[0] == "switch":
-            dec = R.decoder_for("sha1", P.K_n(nsw), P.H_n(nsw), P.SID0, direction, it[1], it[2], seq=seq,
-                                compress=it[3] != "none")
+            dec = R.decoder_for("sha1", P.K_n(nsw), P.H_n(nsw), P.SID0, direction, it[1], it[2],
+                                seq=0 if it[4] else seq, compress=it[3] != "none")
             nsw += 1
     return out
 
@@ -146,6 +180,23 @@ def packet_edits(packets):
     for j in range(n):
         for k in range(j, n):     # copy of packet j inserted after packet k (k == j: immediate duplicate)
             yield ("dup", (j, k), b"".join(packets[:k + 1] + [packets[j]] + packets[k + 1:]))
+
+
+def epoch_edits(packets, first_of_epoch2):
+    """Packet-level edits of a two-epoch stream [a0, a1, NEWKEYS, b0, b1]: every swap / drop / replay position of
+    packet_edits (all of which also cross the key switch), every packet overwritten by a copy of another one, and the
+    whole first-epoch traffic replayed in place of / in front of the second epoch's."""
+    n = len(packets)
+    yield from packet_edits(packets)
+    for i in range(n):
+        for j in range(n):
+            if i != j:        # packet i overwritten by a copy of packet j
+                yield ("replace", (i, j), b"".join(packets[:i] + [packets[j]] + packets[i + 1:]))
+    k = first_of_epoch2
+    old = packets[:k - 1]                        # the first epoch's data packets (packets[k - 1] is the NEWKEYS)
+    yield ("epoch-replace", (k,), b"".join(packets[:k] + old))
+    yield ("epoch-insert", (k,), b"".join(packets[:k] + old + packets[k:]))
+    yield ("epoch-insert", (n,), b"".join(packets + old))
 
 
 def double_edits(packets):
@@ -175,7 +226,8 @@ def double_edits(packets):
 
 EDIT_CLASS = {"xor01": "flip", "xor80": "flip", "xorff": "flip", "del": "delete", "ins00": "insert",
               "trunc": "truncate", "swap": "swap", "drop": "drop", "dup": "replay", "flip2": "flip2",
-              "len+flip": "flip2"}
+              "len+flip": "flip2", "replace": "replay", "epoch-replace": "replay", "epoch-insert": "replay"}
+PACKET_EDITS = ("swap", "drop", "dup", "replace", "epoch-replace", "epoch-insert")
 
 
 # ------------------------------------------------------------------------------------ judging
@@ -226,6 +278,7 @@ def outcome_of(r):
 ENDS = ("waits", "eof")     # what recv() answers once the (edited) stream is used up: block | b"" (connection closed)
 
 
+NEWKEYS_MSG = bytes([P.MSG_NEWKEYS])
 KEEP_READING = 8           # dimension "reader keeps reading": read_message calls made after the first rejection
 
 
@@ -284,11 +337,20 @@ def receive_keep(direction, script, stream, extra_reads=2, eof=False, keep=KEEP_
     return r
 
 
-def judge_after(sent, r):
+def judge_after(sent, r, script=None):
     """Reader that keeps calling read_message after a rejection: everything delivered, before and after the failed
     call(s), must still be an unmodified prefix of the sent sequence (the statement's literal clause; a packet that
-    verifies later *in its place* is accepted)."""
-    for k, g in enumerate(r.got + r.after):
+    verifies later *in its place* is accepted).  The sent sequence is what the sender's packet layer was given, i.e.
+    with its NEWKEYS messages in place: a reader that was refused the packet in front of a NEWKEYS and asks again may
+    be handed that NEWKEYS."""
+    got = r.got
+    if script is not None:
+        it_msgs = iter(sent)
+        sent = [NEWKEYS_MSG if it[0] == "switch" else next(it_msgs) for it in script if it[0] != "auth"]
+        it_got = iter(r.got)
+        got = [NEWKEYS_MSG if it[0] == "switch" else next(it_got) for it in script[:r.done] if it[0] != "auth"]
+        got += list(it_got)                   # extra reads after the script
+    for k, g in enumerate(got + r.after):
         if k >= len(sent):
             return "delivered-extra-message-after-rejection"
         if g != sent[k]:
@@ -301,14 +363,21 @@ def run_edit(direction, script, newkeys, sent, edited, end="waits"):
     return receive_keep(direction, script, newkeys + edited, extra_reads=2, eof=(end == "eof"))
 
 
-def run_edits(acc, direction, suite, suite2, cls, script, newkeys, packets, sent, regions, edits, ends, large=False):
+def run_edits(acc, direction, suite, suite2, cls, script, newkeys, packets, sent, regions, edits, ends, large=False,
+              strict=None):
+    """strict: None = stream of the single-switch / old re-key scripts; False | True = two-epoch stream (dimension 'key
+    epochs') whose sequence numbers run on | restart at every NEWKEYS."""
     enc = b"".join(packets)
+    e2 = None              # two-epoch streams: offset of the first byte protected by the second key set
+    if suite2 is not None:
+        k = [i for i, it in enumerate(script) if it[0] == "switch"][1]
+        e2 = sum(len(p) for p in packets[:k])        # packets[k - 1] is the NEWKEYS sent under the first key set
     for lab, pos, edited in edits:
         if edited == enc:
             acc.count("edits_identical_to_original")
             continue
         n_intact, lcp = intact_packets(packets, edited)
-        region = region_at(regions, lcp) if lab not in ("swap", "drop", "dup") else "packet"
+        region = region_at(regions, lcp) if lab not in PACKET_EDITS else "packet"
         for end in ends:
             r = run_edit(direction, script, newkeys, sent, edited, end)
             acc.ev()
@@ -322,19 +391,29 @@ def run_edits(acc, direction, suite, suite2, cls, script, newkeys, packets, sent
                           + (r.after_end != "cap"))
                 acc.count("continued_reading_ended:" + r.after_end)
                 if r.after and not clause:
-                    clause = judge_after(sent, r)
+                    clause = judge_after(sent, r, script)
                     if not clause:
                         acc.count("deliveries_after_rejection_still_in_place", len(r.after))
             if clause:
-                dims = {"framing": cls, "mac": "-" if cls in ("gcm", "rekey") else suite[1], "zlib": suite[2] != "none",
+                su = suite if (e2 is None or lcp < e2) else suite2      # the suite protecting the first changed byte
+                cls = suite_class(su)
+                dims = {"framing": cls, "mac": "-" if cls == "gcm" else su[1], "zlib": su[2] != "none",
                         "edit": "flip" if EDIT_CLASS[lab] == "flip2" else EDIT_CLASS[lab], "end": end,
                         "packet": "large" if large else "small"}
+                if not large:         # large-packet streams exist with one epoch only: they do not carry the dimension
+                    dims["epochs"] = "one" if suite2 is None else "two"
+                if strict is not None:
+                    dims["strict"] = bool(strict)
                 rep = {"suite": list(suite), "suite2": list(suite2) if suite2 else None, "dir": direction,
                        "edit": lab, "pos": list(pos), "end": end}
                 if large:
                     rep["large"] = True
+                if strict is not None:
+                    rep["epochs"] = True
+                    rep["strict"] = bool(strict)
                 P.sig_violation(acc, clause, dims, {"suite": suite, "dir": direction, "edit": lab, "pos": list(pos), "region": region,
                                     "stream_end": end, "first_changed_byte": lcp, "intact_packets": n_intact,
+                                    "suite_after_rekey": suite2, "strict_kex": strict,
                                     "message_lengths": [len(x) for x in sent],
                                     "offset_in_large_packet": offset_class(lcp - len(packets[0])) if large else None,
                                     "delivered": [g[:24] for g in r.got], "sent": [x[:24] for x in sent],
@@ -345,6 +424,12 @@ def run_edits(acc, direction, suite, suite2, cls, script, newkeys, packets, sent
                 acc.nt(("large", suite, EDIT_CLASS[lab], region, (lcp - len(packets[0])) // 4096, r.done - 1, end,
                         r.after_end))
                 acc.count("large_packet_edits")
+                acc.count("outcome:" + outcome_of(r))
+            elif strict is not None:
+                acc.nt(("epochs", suite, suite2, strict, EDIT_CLASS[lab], region, r.done - 1, end, r.after_end))
+                acc.count("key_epoch_edits")
+                if lab in PACKET_EDITS:
+                    acc.count("key_epoch_packet_edits:" + lab)
                 acc.count("outcome:" + outcome_of(r))
             else:
                 acc.nt((suite, suite2, EDIT_CLASS[lab], region, r.done - 1, end, r.after_end))
@@ -390,8 +475,50 @@ def do_large(item, acc):
                     "delete_insert_truncate_positions": len(coarse)})
 
 
+SEAM_BROKEN = "key_epoch_streams_not_delivered_unedited"
+
+
+def epoch_case(direction, suite, suite2, strict):
+    script, newkeys, packets, sent = record_script(direction, make_epoch_script(suite, suite2, strict))
+    k = 1 + len(EPOCH_LENGTHS[0])          # index in `packets` of the first packet under the second key set
+    enc = b"".join(packets)
+    start = sum(len(p) for p in packets[:k - 1])        # offset of the encrypted NEWKEYS
+    edits = [(lab, (pos,), data) for lab, pos, data in E.byte_edits(enc, positions=range(start, len(enc)))]
+    edits += list(epoch_edits(packets, k))
+    return script, newkeys, packets, sent, edits
+
+
+def do_epochs(item, acc):
+    """Dimension 'key epochs': the edit menu applied across a key switch on the same sender / receiver objects."""
+    _, tier, suite, direction, suite2, strict = item
+    script, newkeys, packets, sent, edits = epoch_case(direction, suite, suite2, strict)
+    enc = b"".join(packets)
+    regions = regions_of(direction, script, packets)
+    if any(name.endswith("undecoded") for _a, _b, name in regions):
+        acc.count("key_epoch_streams_the_reference_decoder_could_not_read")    # C04 judges the keys themselves
+    # sanity: the unedited stream is delivered completely.  If not, nothing can be said about edits of this stream; the
+    # other streams still run and main() reports a harness error unless one of them shows a violation of the statement.
+    r0 = run_edit(direction, script, newkeys, sent, enc)
+    r1 = run_edit(direction, script, newkeys, sent, enc, "eof")
+    if r0.got != sent or not r0.waits or r1.got != sent or not isinstance(r1.error, EOFError):
+        acc.count(SEAM_BROKEN)
+        acc.note("seam: unedited two-epoch stream not delivered for %r -> %r (strict=%r, %s): %s"
+                 % (suite, suite2, strict, direction, outcome_of(r0) if (r0.waits or r0.error) else "none"))
+        return
+    cls = suite_class(suite) if suite2 == suite else "rekey"
+    run_edits(acc, direction, suite, suite2, cls, script, newkeys, packets, sent, regions, edits, ENDS, strict=strict)
+    acc.count("key_epoch_streams")
+    acc.count("key_epoch_streams:" + ("same-suite" if suite2 == suite else "suite-changes")
+              + (":strict" if strict else ":seqno-runs-on"))
+    acc.cmax("max_stream_len", len(enc))
+    if suite in (QUICK_SUITES[8], QUICK_SUITES[11]) and suite2 == suite and direction == "c2s" and strict:
+        acc.sample({"part": "key epochs", "suite": suite, "suite_after_rekey": suite2, "dir": direction,
+                    "strict_kex": strict, "message_lengths": [list(x) for x in EPOCH_LENGTHS],
+                    "packet_wire_lengths": [len(p) for p in packets], "edits": len(edits)})
+
+
 def run_item(item, acc):
-    {"suite": do_suite, "large": do_large}[item[0]](item, acc)
+    {"suite": do_suite, "large": do_large, "epochs": do_epochs}[item[0]](item, acc)
 
 
 def do_suite(item, acc):
@@ -420,12 +547,29 @@ def do_suite(item, acc):
                     "regions": [[a, b, n] for a, b, n in regions][:15], "edits": len(edits)})
 
 
+def epoch_items(tier):
+    """Two-epoch streams.  quick: every class representative re-keyed to itself (both directions) and to the
+    representative EPOCH_SHIFT further on (client->server), each with the sequence numbers running on and restarting;
+    thorough: all of that, plus all 144 suites re-keyed to themselves and every ordered pair of representatives."""
+    n = len(QUICK_SUITES)
+    out = [("epochs", tier, s, d, s, st) for s in QUICK_SUITES for d in ("c2s", "s2c") for st in STRICT]
+    out += [("epochs", tier, s, "c2s", QUICK_SUITES[(i + EPOCH_SHIFT) % n], st)
+            for i, s in enumerate(QUICK_SUITES) for st in STRICT]
+    if tier != "quick":
+        out += [("epochs", tier, s, d, s, st) for s in P.all_suites() if s not in QUICK_SUITES
+                for d in ("c2s", "s2c") for st in STRICT]
+        out += [("epochs", tier, a, "c2s", b, st) for i, a in enumerate(QUICK_SUITES) for j, b in enumerate(QUICK_SUITES)
+                if i != j and j != (i + EPOCH_SHIFT) % n for st in STRICT]
+    return out
+
+
 def items_for(tier):
     if tier == "quick":
-        return [("large", tier, s, d) for s in QUICK_SUITES for d in ("c2s", "s2c")] + \
+        return [("large", tier, s, d) for s in QUICK_SUITES for d in ("c2s", "s2c")] + epoch_items(tier) + \
                [("suite", tier, s, "c2s") for s in P.all_suites()] + \
                [("suite", tier, s, "s2c") for s in QUICK_SUITES]
     items = [("large", tier, s, d) for s in P.all_suites() for d in ("c2s", "s2c")]
+    items += epoch_items(tier)
     items += [("suite", tier, s, d) for s in P.all_suites() for d in ("c2s", "s2c")]
     reps = QUICK_SUITES[0:1] + QUICK_SUITES[6:14]
     items += [("suite", tier, a, "c2s", b) for a in reps for b in reps]      # streams crossing a re-key
@@ -441,8 +585,14 @@ def main(tier):
         "padding|mac, or whole packet], number of messages delivered before the receiver stopped, how reading on after "
         "the first rejection ended [not rejected | waits | eof | 8 more calls made]) tuples whose edit "
         "really changed the stream and for which the oracle held; large-packet streams add the 4 KiB bucket of the "
-        "first changed byte inside the 35000-byte packet",
+        "first changed byte inside the 35000-byte packet; key-epoch streams (two key switches on the same sender / "
+        "receiver objects, edits crossing the switch) add the suite after the re-key and whether sequence numbers "
+        "restart at NEWKEYS",
         ["receiver keyed like the sender from fixed K/H/session id; sender side is paramiko (recorded once per suite)",
+         "key epochs: both ends switch keys through the real _activate_outbound/_activate_inbound on the same Transport "
+         "and Packetizer objects, each switch with its own K and H and the session id kept; the sender's NEWKEYS "
+         "messages count as part of the sent sequence for a reader that keeps reading; packet-level edits of these "
+         "streams include overwriting one packet by a copy of another (a drop and a replay at the same place)",
          "adversary bounded to one edit per stream (thorough: also two bit flips), each followed by either silence or a "
          "closed connection; recv() otherwise returns exactly what is asked",
          "a caller that keeps calling read_message after it raised makes at most %d further calls; a packet that "
@@ -452,13 +602,20 @@ def main(tier):
          "even if it decodes to the same message" % STRICT_TAMPERED_PACKET])
     items = items_for(tier)
     ck.merge(core.pmap(items, run_item))
-    P.regroup(ck, {"framing": {"classic-ctr", "classic-cbc", "etm-ctr", "etm-cbc", "gcm"} | (
-                       set() if tier == "quick" else {"rekey"}),
-                   "mac": set(P.MACS), "zlib": {True, False},
+    P.regroup(ck, {"framing": {"classic-ctr", "classic-cbc", "etm-ctr", "etm-cbc", "gcm"},
+                   "mac": set(P.MACS), "zlib": {True, False}, "epochs": {"one", "two"}, "strict": {True, False},
                    "edit": set(EDIT_CLASS.values()) - {"flip2"}, "end": set(ENDS), "packet": {"small", "large"}})
+    if ck.acc.counters.get(SEAM_BROKEN) and not ck.acc.violations:
+        raise AssertionError("seam: %d unedited two-epoch streams were not delivered: %s"
+                             % (ck.acc.counters[SEAM_BROKEN], sorted(ck.acc.notes)[:3]))
     ck.extra["bound"] = {"suites": len(set(i[2] for i in items)), "work_items": len(items),
                          "read_calls_after_a_rejection": KEEP_READING,
                          "message_lengths": list(LENGTHS), "double_faults": tier != "quick",
+                         "key_epochs": {"message_lengths_per_epoch": [list(x) for x in EPOCH_LENGTHS],
+                                        "streams": len([i for i in items if i[0] == "epochs"]),
+                                        "streams_suite_changes": len([i for i in items if i[0] == "epochs"
+                                                                      and i[2] != i[4]]),
+                                        "sequence_numbers": ["run on", "restart at NEWKEYS (strict kex)"]},
                          "large_packet": {"message_lengths": list(LARGE_LENGTHS),
                                           "streams": len([i for i in items if i[0] == "large"]),
                                           "flip_stride": LARGE_STRIDE["quick" if tier == "quick" else "thorough"],
@@ -471,9 +628,17 @@ def replay(rec):
     suite, direction, lab, pos = tuple(case["suite"]), case["dir"], case["edit"], tuple(case["pos"])
     suite2 = tuple(case["suite2"]) if case.get("suite2") else None
     large = bool(case.get("large"))
-    script, newkeys, packets, sent = record(direction, suite, suite2, LARGE_LENGTHS if large else LENGTHS)
-    enc = b"".join(packets)
-    if large and lab not in ("swap", "drop", "dup"):
+    if case.get("epochs"):
+        script, newkeys, packets, sent, cands = epoch_case(direction, suite, suite2, case["strict"])
+        enc = b"".join(packets)
+        print("two-epoch stream: NEWKEYS, a0, a1, NEWKEYS, b0, b1; suite after the re-key", suite2,
+              "; sequence numbers", "restart at every NEWKEYS (strict kex)" if case["strict"] else "run on")
+    else:
+        script, newkeys, packets, sent = record(direction, suite, suite2, LARGE_LENGTHS if large else LENGTHS)
+        enc = b"".join(packets)
+    if case.get("epochs"):
+        pass
+    elif large and lab not in ("swap", "drop", "dup"):
         cands = [(l, (p,), d) for l, p, d in E.byte_edits(enc, positions=list(pos))]
     else:
         cands = [(l, (p,), d) for l, p, d in E.byte_edits(enc)] + list(packet_edits(packets))
@@ -492,7 +657,7 @@ def replay(rec):
     if clause == "accepted-tampered-packet" and not STRICT_TAMPERED_PACKET:
         clause = None
     if not clause and r.after:
-        clause = judge_after(sent, r)
+        clause = judge_after(sent, r, script)
     print("suite", suite, direction, "message lengths", [len(x) for x in sent], "edit", lab, pos,
           "first changed byte", lcp, "intact packets", n_intact, "stream end", end)
     print("sent     ", [s.hex()[:48] for s in sent])
